@@ -151,12 +151,46 @@ def driveC12 (args : List String) : String :=
     | none => "bad-op"
   | _ => "bad-op"
 
+def b01 (b : Bool) : String := if b then "1" else "0"
+
+def strOfBytes (b : Bytes) : String := String.ofList (b.map fun x => Char.ofNat x.toNat)
+
+def driveC11 (args : List String) : String :=
+  match args with
+  | ["unary", m, mt, hok, uok, hres, mo] =>
+    match hexArg m, hexArg mt with
+    | some m, some mt =>
+      let req : HttpServer.Req := ⟨m, strOfBytes mt, hok == "1", true, uok == "1"⟩
+      let h : HttpServer.HandlerResult := if hres == "none" then none else hres.toNat?
+      let rep := HttpServer.handleMethod req h false (mo == "1")
+      let g := match rep.grpcCode with | some c => toString c | none => "none"
+      s!"status={rep.httpStatus} allow={b01 rep.allowPost} calls={rep.descHandlerCalls} app={rep.appCalls} grpc={g}"
+    | _, _ => "bad-op"
+  | ["stream", m, mt, hok, script] =>
+    match hexArg m, hexArg mt with
+    | some m, some mt =>
+      let req : HttpServer.Req := ⟨m, strOfBytes mt, hok == "1", true, true⟩
+      let ops := ((script.drop 7).toString.toList).filterMap fun c =>
+        if c == 's' then some (HttpServer.SOp.send true true)
+        else if c == 'm' then some (HttpServer.SOp.send false true)
+        else if c == 'h' then some HttpServer.SOp.setHeader
+        else if c == 'H' then some HttpServer.SOp.sendHeader
+        else if c == 't' then some HttpServer.SOp.setTrailer
+        else if c == 'r' then some HttpServer.SOp.recv
+        else none
+      let rep := HttpServer.handleStream req ops
+      let fr := String.ofList (rep.frames.map fun f => match f with | .data => 'd' | .trailer => 'T')
+      s!"status={rep.httpStatus} allow={b01 rep.allowPost} calls={rep.handlerCalls} frames={fr}"
+    | _, _ => "bad-op"
+  | _ => "bad-op"
+
 def dispatch (line : String) : String :=
   match (line.splitOn " ").filter (· ≠ "") with
   | "C14" :: rest => driveC14 rest
   | "C09" :: rest => driveC09 rest
   | "C07" :: rest => driveC07 rest
   | "C12" :: rest => driveC12 rest
+  | "C11" :: rest => driveC11 rest
   | _ => "bad-op"
 
 partial def loop (h : IO.FS.Stream) (out : IO.FS.Stream) : IO Unit := do
